@@ -34,6 +34,7 @@ func main() {
 	os.MkdirAll(out, 0755)
 	ov := map[string]string{}
 	nsites := 0
+	nsel := 0
 	for _, f := range os.Args[2:] {
 		src, err := os.ReadFile(f)
 		if err != nil {
@@ -125,7 +126,18 @@ func main() {
 			}
 		}
 		dst := filepath.Join(out, strings.ReplaceAll(strings.TrimPrefix(f, "/"), "/", "__"))
-		os.WriteFile(dst, append(b, tail...), 0644)
+		full := append(b, tail...)
+		if os.Getenv("NOSELRW") == "" {
+			var n int
+			full, n = rewriteSelects(f, full, rel)
+			nsel += n
+			if n > 0 {
+				// generics in the helpers need language >= go1.18 for this file only (loop-var semantics unchanged < 1.22).
+				// Put the constraint on line 1 without shifting lines: join with the first line if it is a comment/package line.
+				full = append([]byte("//go:build go1.18\n"), full...)
+			}
+		}
+		os.WriteFile(dst, full, 0644)
 		ov[f] = dst
 	}
 	for _, extra := range strings.Split(os.Getenv("OVERLAY_EXTRA"), ",") {
@@ -135,5 +147,5 @@ func main() {
 	}
 	j, _ := json.MarshalIndent(map[string]any{"Replace": ov}, "", " ")
 	os.WriteFile(filepath.Join(out, "overlay.json"), j, 0644)
-	fmt.Fprintf(os.Stderr, "instrumented %d files, %d yield sites\n", len(ov), nsites)
+	fmt.Fprintf(os.Stderr, "instrumented %d files, %d yield sites, %d selects rewritten\n", len(ov), nsites, nsel)
 }
